@@ -53,7 +53,12 @@ TEval == /\ Ev.e = "Eval" /\ phase \in {"search", "sizing"}
 
 TSized == /\ Ev.e = "Sized" /\ phase \in {"search", "sizing"}
           /\ sized' = Append(sized, Ev)
-          /\ fails' = Add(cfg.Hmin_mm <= Ev.H_mm /\ Ev.H_mm <= cfg.Hmax_mm, "C02.HeightInBounds")
+          /\ LET same == {i \in 1..Len(evals) : evals[i].n = Ev.n /\ evals[i].H_mm = cfg.Hmax_mm}
+                 \* the modelling assumption of Search.tla: the excess the search saw at maximum height (single-height g-function) is what
+                 \* sizing sees there (three-height family) - compared on the most recent evaluation of a field of that size
+                 agrees == same = {} \/ Ev.oc = "none" \/ Abs(Ev.hi_uK - evals[CHOOSE i \in same : \A j \in same : j <= i].ex_uK) <= Tol
+             IN fails' = AddAll((IF cfg.Hmin_mm <= Ev.H_mm /\ Ev.H_mm <= cfg.Hmax_mm THEN {} ELSE {"C02.HeightInBounds"})
+                                \cup (IF agrees THEN {} ELSE {"assume.SizingAgreesAtHmax"}))
           /\ phase' = "sizing" /\ l' = l + 1 /\ UNCHANGED <<tid, cfg, evals, outc, fin>>
 
 AllPositive == Len(evals) > 0 /\ \A i \in 1..Len(evals) : evals[i].ex_uK > 0
